@@ -18,7 +18,7 @@ from pycv.opalg import nc
 PROP = "C03"
 
 
-def native_atoms(Nspin=1, Nk=2):
+def native_atoms(Nspin=1, Nk=2, s=(6, 5, 4)):
     import eminus
     from eminus import Atoms
 
@@ -26,7 +26,7 @@ def native_atoms(Nspin=1, Nk=2):
     eminus.config.verbose = "critical"
     a = Atoms("He", [[0.1, 0.2, 0.3]], ecut=3, a=[[4.0, 0.3, 0.1], [0.2, 4.5, 0.4], [0.5, 0.1, 5.0]],
               unrestricted=(Nspin == 2))
-    a.s = [6, 5, 4]
+    a.s = list(s)
     if Nk > 1:
         a.kpts.kmesh = [2, 1, 1]
         a.kpts.gamma_centered = False
